@@ -67,7 +67,9 @@ def fmtAddr (v4 : Bool) (a : Nat) : Bytes := if v4 then fmtV4 (a / 2 ^ 96) else 
 /-- `IpBlock::fmt_v4` / `fmt_v6` -/
 def fmtBlock (v4 : Bool) : TBlk → Bytes
   | .pfx a len => fmtAddr v4 a ++ (if len = (if v4 then 32 else 128) then [] else [47] ++ decimal len)
-  | .range lo hi => if lo = hi then fmtAddr v4 lo else fmtAddr v4 lo ++ [45] ++ fmtAddr v4 hi
+  | .range lo hi =>
+    -- `min.to_v4() == max.to_v4()` compares the IPv4 parts only
+    if (if v4 then lo / 2 ^ 96 = hi / 2 ^ 96 else lo = hi) then fmtAddr v4 lo else fmtAddr v4 lo ++ [45] ++ fmtAddr v4 hi
 
 def joinComma : List Bytes → Bytes
   | [] => []
